@@ -103,6 +103,7 @@ namespace Givaro {
             if (this != &R) // guard against self-assignment
             {
                 _givrand = R._givrand;
+                _size = R._size;
                 const_cast<Ring&>(_ring) = R._ring;
             }
 
@@ -161,8 +162,8 @@ namespace Givaro {
         /// Ring
         const Ring& _ring;
 
-        /// Random generator
-        const Residu_t _size;
+        /// Sampling size (copied by the assignment operator)
+        Residu_t _size;
         GivRandom _givrand;
 
 
